@@ -164,6 +164,8 @@ def reg_name(i: int) -> str:
 
 
 def write_value(op_index: int, pos: int, i: int, vsel=None) -> int:
+    if vsel == 2:                                        # part C: 'no value' is a value like any other for the composite
+        return None
     if vsel is not None:                                 # part C: values repeat across operations
         return 7000 + 10 * vsel + i
     return 1000 * (op_index + 1) + 10 * pos + i
@@ -263,8 +265,9 @@ def run_scenario(sc, trace=None):
         if code in "Rr":                                  # the plant moves on: a cached value from this read is now stale
             for j in range(K):
                 for name in model[j]:
-                    model[j][name] += DRIFT
-                    layers[j].mem[name] += DRIFT
+                    if model[j][name] is not None and layers[j].mem[name] is not None:
+                        model[j][name] += DRIFT
+                        layers[j].mem[name] += DRIFT
     # harness sanity: direct single reads on the fakes agree with the reference memory
     if not out:
         for i in range(n):
@@ -293,8 +296,8 @@ def scenarios_of(item):
     elif part == "C":
         # repeated values across operations: batch and single writes of one of two values per register, and reads, in every
         # order (a layer that remembers what it wrote must not skip a later write of the same value)
-        alpha = [["W", list(b), v] for b in selections(writable) if b for v in (0, 1)]
-        alpha += [["w", [i], v] for i in writable for v in (0, 1)]
+        alpha = [["W", list(b), v] for b in selections(writable) if b for v in (0, 1, 2)]
+        alpha += [["w", [i], v] for i in writable for v in (0, 1, 2)]
         alpha += [["R", list(readable)]]
         for m in range(2, SEQ_C + 1):
             for ops in itertools.product(alpha, repeat=m):
